@@ -313,7 +313,15 @@ class Env:
                     if node["type"] == "int" and not all_integral(v):
                         raise Unspecified("integer option converted by a non-integer factor")
                 node["options"].append(v)
+        elif k == "condition" and st.get("unevaluable"):
+            # a condition that cannot be evaluated at all (reference to a node that does not
+            # exist, bound in a unit of another dimension): it is not true
+            for lit, unit in cond_literals(st["expr"]):
+                self.need_unit(unit)
+            node["condition"] = st["expr"]
+            node["cond_bad"] = st["unevaluable"]
         elif k == "condition":
+            node.pop("cond_bad", None)
             for lit, unit in cond_literals(st["expr"]):
                 self.need_unit(unit)
                 ok = (node["type"] in ("int", "float") and isinstance(lit, (int, float))
@@ -633,6 +641,8 @@ def in_options(node, value, tol=1e-9):
 
 
 def cond_literals(e):
+    if e[0] == "cmpref":
+        return []
     if e[0] == "cmp":
         return [(e[2], e[3])]
     return cond_literals(e[1]) + cond_literals(e[2])
@@ -644,8 +654,12 @@ def eval_condition(env, node, value, margin=0.0):
     Returns True / False, or None when the value is closer than `margin`
     (relative) to a comparison boundary (then neither outcome is asserted)."""
     expr = node["condition"]
+    if node.get("cond_bad"):
+        return None
 
     def ev(e):
+        if e[0] == "cmpref":
+            return None
         if e[0] == "cmp":
             _, op, lit, unit = e
             if isinstance(value, str) or isinstance(value, bool):
@@ -718,6 +732,11 @@ def check_constraints(env, node, margin=0.0):
                 raise Unspecified("value within the tolerance band of an option")
             raise Abort("value is not one of the options", "C16",
                         [node["path"], v, node["options"]])
+    if node["condition"] is not None and node.get("cond_bad"):
+        if isinstance(v, list):
+            raise Unspecified("unevaluable condition on an array")
+        raise Abort("condition cannot be evaluated", "C16",
+                    [node["path"], v, node["condition"], node["cond_bad"]])
     if node["condition"] is not None and not isinstance(v, list):
         n += 1
         r = eval_condition(env, node, v, margin)
@@ -773,6 +792,8 @@ def dims_text(dims):
 
 
 def cond_text(e):
+    if e[0] == "cmpref":
+        return "{?} " + e[1] + " {?" + e[2] + "}"
     if e[0] == "cmp":
         _, op, lit, unit = e
         rhs = lit_text(lit)
